@@ -259,5 +259,21 @@ ADDED = {
             "QUIC over a lossy datagram link: the release measurement waits (bounded, 120 s) for quinn's own idle / closing timers, the notification slack is 75 s"],
     "C16": ["configurations with several entries: a tcp entry and a udp entry on one port, a Trojan entry and a Shadowsocks udp entry on one port, two ports, the client's index"],
 }
+ADDED_I = {
+    "C01": ["6 % of the VMess plans are one flow of 66 000 one-byte writes (more chunks than VMess's 16-bit chunk counter counts; the counter wraps by design)"],
+    "C02": ["SOCKS5-UDP fragments (FRAG != 0; dropped by the relay) with a datagram right behind them", "case twins among the neighbouring addresses (one octet is an ASCII letter, the twin carries it in the other case)"],
+    "C03": ["C03ustream: an oversize datagram (2000-2900 bytes, may be dropped whole) in the middle of the VMess sequences; what follows it must still be readable"],
+    "C04": ["30 % of the plans have an idle period of 31-60 simulated seconds inside the exchange; the pieces behind it are cut like the others"],
+    "C05": ["the spliced stream is also presented before the later connection's application has sent its first byte"],
+    "C06": ["two thirds of the attacks on Shadowsocks 2022 servers arrive in one piece (a cut first flight is refused whatever it carries)"],
+    "C07": ["well-formed local SOCKS5-UDP datagrams from one socket to a spread of targets (addresses and names, ports above and below one another)"],
+    "C08": ["nodes can be given a descriptor limit that their own open sockets use up; fault: more flows abandoned by their applications toward a silent target than the limit allows (no flood of attacker-held connections in those plans)"],
+    "C10": ["resp-early: the reference server speaks first - a sealed, fresh response that echoes a foreign request salt before the application's first byte; nothing of it may be released"],
+    "C13": ["one plan in five runs after an earlier local connection that sent an unfinished handshake, or a complete request with trailing bytes, and went away"],
+    "C15": ["a peer of the server that sends the beginning of a TLS hello / upgrade request / protocol handshake and closes; QUIC plans with a 3-8 s outage of the datagram link after the first second"],
+    "C16": ["late-certificate cases (in a process of their own): the certificate file the ssl / quic section names is absent for the first flow and put in place afterwards; the first flow fails, the next one is served"],
+}
+for _k, _v in ADDED_I.items():
+    ADDED.setdefault(_k, []).extend(_v)
 for _k, _v in ADDED.items():
     CHECKS[_k]["assumptions"] = list(CHECKS[_k]["assumptions"]) + _v
